@@ -240,6 +240,11 @@ def plan(prop, tier):
             P.append({"fl": fl, "args": ["sentinels", "--shard", "0/1"], "timeout": 600, "leaks_ok": False, "transcript": "sentinels-0"})
     else:
         raise SystemExit(f"unknown property {prop}")
+    if q:
+        # quick shards take seconds to a few minutes: a tight watchdog keeps a hang (e.g. a probe
+        # loop that never ends on a corrupted table) from stalling the check for an hour
+        for sh in P:
+            sh["timeout"] = min(sh["timeout"], 1500 if sh["fl"].startswith("miri") else 900)
     if not q:
         # the thorough tier has minutes, not seconds: deepen the cheap (native, non-sanitizer)
         # random workloads by a constant factor
